@@ -479,7 +479,7 @@ Proof.
   - intros t k w H _. unfold rn_dropped. eapply sa_sview; [|exact H]. apply sview_drop_callback.
   - intros t k w H _. unfold rn_despawn_missing. eapply sa_sview; [|apply sa_despawn; eapply sa_sview; [apply sview_drop_callback|exact H]]. reflexivity.
   - intros t w H. apply sa_despawn. exact H.
-  - intros t cb b w H _. sv H.
+  - intros t cb b w H _ _. sv H.
   - intros t tk w H. unfold once_finish. destruct (alookup t (cbs w)); [sv H|exact H].
   - intros sd t r c w _ H. unfold body_begin.
     assert (H0 : storage_alive (body_sample P sd t r c w)).
@@ -829,7 +829,7 @@ Proof.
     assert (Hpre : default_pre A B w) by exact (conj HI (conj Hincl (conj Hh Hc))).
     destruct (alookup t (cbs w)) as [cb|] eqn:EC; [|discriminate E].
     assert (Hbump : forall b, default_pre A B (cb_bump t cb b w)).
-    { intros b. apply (PreR_step A B w); [eapply (c_cbbump _ _ (sa_closed P)); [exact (ic_alive _ _ HI)|exact EC]|apply evolves_rview; reflexivity|exact Hpre]. }
+    { intros b. apply (PreR_step A B w); [eapply sa_sview; [|exact (ic_alive _ _ HI)]; reflexivity|apply evolves_rview; reflexivity|exact Hpre]. }
     destruct (cb_once cb) as [tk|].
     + destruct (cb_taken cb); [inversion E; subst; apply default_post_of_pre; [exact Hpre|apply cnt_post_refl]|].
       bind_inv E w1 E1. bind_inv E w2 E2. inversion E; subst. clear E.
